@@ -3,7 +3,7 @@
    the correspondence run, not verified); schema conformance of all fields is an oracle. *)
 From Coq Require Import Lia.
 From RM Require Import Gen.C15Fmt.
-From RM Require Import C15.Model C15.Schema C15.Widths C15.Utf8 C15.Pretty C15.Proofs C15.Proofs2 C15.Proofs3 C15.Proofs4 C15.Proofs5 C15.Proofs6 C15.Proofs7.
+From RM Require Import C15.Model C15.Schema C15.Widths C15.Utf8 C15.Pretty C15.Proofs C15.Proofs2 C15.Proofs3 C15.Proofs4 C15.Proofs5 C15.Proofs6 C15.Proofs7 C15.Scalar C15.Proofs8.
 Open Scope Z_scope.
 
 (* Escaping is total and correct: every JSON value — arbitrary nesting, arbitrary integers,
@@ -414,6 +414,36 @@ Example c15_nonvacuous_wide32 :
   hex_value (skipn 2 (address_str W32 18446744073709551615)) = 18446744073709551615.
 Proof. vm_compute. repeat split; reflexivity. Qed.
 
+(* THE PROPERTY, every process state.  For every state satisfying the executable hypotheses [wf_state] (numeric ranges, enumeration
+   indices, the C08 / C11 / C14 arithmetic conclusions) and [state_scalar] (every string of the state consists of Unicode scalar values —
+   true of every Rust `String`: names with quotes, control characters, non-BMP and lossily decoded text), in both build profiles:
+   print_json produces a report j without trap; j conforms to the schema regenerated from json-schema.md; and for BOTH renderings — the
+   compact [serialise j] and the pretty [pretty j] — the UTF-8 bytes are accepted by the strict decoder and decode to the rendering, and the
+   rendering is accepted by the RFC 8259 parser with insignificant whitespace and denotes exactly j (so the two outputs are valid UTF-8,
+   valid JSON and equal as values).  Both hypotheses are evaluated on every real state of the run.  Outside: possible_bit_flips[].confidence. *)
+Theorem c15_report_valid : forall p s, wf_state s = true -> state_scalar s = true ->
+  exists j, json_of_state p s = Ret j /\ conforms DOC_SCHEMA j = true /\
+    utf8_decode (length (utf8 (serialise j))) (utf8 (serialise j)) = Some (serialise j) /\
+    parse_ws (serialise j) = Some j /\ parse (serialise j) = Some j /\
+    utf8_decode (length (utf8 (pretty j))) (utf8 (pretty j)) = Some (pretty j) /\
+    parse_ws (pretty j) = Some j.
+Proof.
+  intros p s Hw Hs. exists (report_obj s). pose proof (report_scalar s Hs) as J.
+  split; [exact (report_pure p s Hw)|]. split; [exact (report_conforms s Hw)|].
+  split; [exact (report_bytes_utf8 _ J)|]. split; [apply compact_parse_ws|]. split; [apply serialise_parse|].
+  split; [exact (pretty_bytes_utf8 _ J)|apply pretty_parse_ws].
+Qed.
+Print Assumptions c15_report_valid.
+
+(* [state_scalar] is not vacuous: a lone surrogate in a thread name, a module file or inside the soft-errors value is rejected *)
+Theorem c15_state_scalar_rejects :
+  sc_thread {| th_id := 1; th_name := Some [55296]; th_last_error := None; th_frames := [] |} = false /\
+  sc_module {| m_base := 0; m_size := 1; m_file := [97; 57343]; m_debug_file := []; m_debug_id := []; m_code_id := []; m_version := None |} = false /\
+  jscalar (JArr [JObj [([1114112], JNull)]]) = false /\
+  sc_thread {| th_id := 1; th_name := Some [34; 92; 0; 31; 65533; 128512; 1114111]; th_last_error := None; th_frames := [] |} = true.
+Proof. vm_compute. repeat split; reflexivity. Qed.
+Print Assumptions c15_state_scalar_rejects.
+
 (* ---- non-vacuity ---- *)
 Example c15_nonvacuous_roundtrip :
   let v := JObj [([97; 34; 92; 10; 1; 128512], JArr [JNum (-42); JNum 0; JNull; JBool true; JStr [31; 127; 8]; JObj []; JArr []])] in
@@ -460,12 +490,12 @@ Definition ex_state : state :=
      s_bootargs := Some [45; 118];
      s_handles := Some [ {| h_handle := Some 18446744073709551615; h_type := Some [70]; h_object := None |} ];
      s_soft := Some (JArr [JObj [([97; 100; 100; 114; 101; 115; 115], JStr [63]); ([110], JArr [JNum (-1); JNull])]; JObj []]) |}.
-Example c15_nonvacuous_state : state_ok ex_state /\ wf_state ex_state = true /\ regs_named_ok (s_registers ex_state) = true /\
+Example c15_nonvacuous_state : state_ok ex_state /\ wf_state ex_state = true /\ state_scalar ex_state = true /\ regs_named_ok (s_registers ex_state) = true /\
   exists j, json_of_state Debug ex_state = Ret j /\ parse (serialise j) = Some j /\ conforms DOC_SCHEMA j = true /\
             jget k_thread_count j = Some (JNum 2) /\ (1400 < length (serialise j))%nat.
 Proof.
   assert (W : wf_state ex_state = true) by (vm_compute; reflexivity).
-  split; [apply wf_state_ok; exact W|]. split; [exact W|]. split; [reflexivity|].
+  split; [apply wf_state_ok; exact W|]. split; [exact W|]. split; [vm_compute; reflexivity|]. split; [reflexivity|].
   eexists. split; [vm_compute; reflexivity|]. split; [apply serialise_parse|]. split; [vm_compute; reflexivity|].
   split; [reflexivity|vm_compute; lia].
 Qed.
